@@ -5,6 +5,7 @@ package main
 
 import (
 	"fmt"
+	"go/types"
 	"os"
 	"runtime/debug"
 	"sort"
@@ -488,6 +489,21 @@ func (e *Engine) runInits(st *State) {
 					if callee := call.Call.StaticCallee(); callee != nil && callee.Name() == "init" && callee.Pkg != p {
 						fr.ip++
 						continue
+					}
+					// initialisers that call into third-party or standard-library code (other than
+					// errors.New) are skipped: the global keeps its zero value
+					if callee := call.Call.StaticCallee(); callee != nil && callee.Pkg != nil {
+						pp := callee.Pkg.Pkg.Path()
+						if !strings.HasPrefix(pp, "github.com/relab/hotstuff") && callee.String() != "errors.New" && e.findModel(callee) == nil {
+							if call.Type() != nil {
+								if tup, ok := call.Type().(*types.Tuple); !ok || tup.Len() > 0 {
+									e.set(fr, call, e.zero(call.Type()))
+								}
+							}
+							e.modelsUsed["package init: call to "+callee.String()+" skipped (global left at zero value)"] = true
+							fr.ip++
+							continue
+						}
 					}
 				}
 			}
